@@ -192,15 +192,15 @@ def count_override(rng, prog):
 def shard(ctx):
     rec = ctx.rec
     monitors.install_contracts()
-    n = ctx.scale(2400, 60000)
+    n = ctx.scale(9600, 80000)
     seen = {}
     i = 0
     # part (b): bracket sequences (shared enumerator with C12), accepted ones only are judged
-    quota_b = ctx.scale(20000, 400000)
+    quota_b = ctx.scale(12000, 400000)
     for j, prog in enumerate(bracket.enumerate_programs(3 if ctx.quick else 4, 2)):
         if not ctx.mine(j):
             continue
-        if quota_b <= 0 or rec.time_left() < (rec.deadline - rec.t0) * 0.5:
+        if quota_b <= 0 or rec.time_left() < (rec.deadline - rec.t0) * 0.6:
             break
         quota_b -= 1
         process(ctx, {"prog": prog, "npseed": j}, seen)
@@ -210,10 +210,11 @@ def shard(ctx):
         rng = ctx.rng
         size = rng.choice([1, 1, 2, 2, 3])
         g = gen.ExecGen(rng, reg_size=(size, size), max_depth=rng.choice([2, 3, 4, 5]), body_len=(1, 4), n_maps=(0, 1),
-                        n_macros=(0, 1), n_lets=(1, 3), p_let_count=0.5, loop_counts=(0, 0, 1, 2, 3), allow_par=False)
+                        n_macros=(0, 3), n_lets=(1, 3), p_let_count=0.5, loop_counts=(0, 0, 1, 2, 3), allow_par=False,
+                        p_shadow=0.7, p_section_macro=0.6)
         prog = g.program()
         case = {"prog": prog, "npseed": rng.randrange(1 << 30)}
-        if rng.random() < 0.3:
+        if rng.random() < 0.5:
             ov = count_override(rng, prog)
             if ov:
                 case["ov"] = ov
